@@ -518,6 +518,12 @@ func (fr *frame) appendCall(x *ssa.Call, args []*Term, st *state) {
 		} else {
 			g.assert("(forall ((j Int)) (! (=> (and (<= 0 j) (< j " + k + ")) (= (select " + A + " (+ " + newoff + " " + n + " j)) (select " + tsrc + " (+ (s_off " + t.S + ") j)))) :pattern ((select " + A + " (+ " + newoff + " " + n + " j)))))")
 		}
+		// the same two facts stated over the ABSOLUTE index (pattern: a plain select), so that a goal about an arbitrary
+		// element of the result can use them (E-matching cannot solve newoff+n+j = j0 for j)
+		g.assert("(forall ((j Int)) (! (=> (and (<= " + newoff + " j) (< j (+ " + newoff + " " + n + "))) (= (select " + A + " j) (select " + src + " (+ (s_off " + s.S + ") (- j " + newoff + "))))) :pattern ((select " + A + " j))))")
+		if !(isConst && clen <= 4) {
+			g.assert("(forall ((j Int)) (! (=> (and (<= (+ " + newoff + " " + n + ") j) (< j (+ " + newoff + " " + n + " " + k + "))) (= (select " + A + " j) (select " + tsrc + " (+ (s_off " + t.S + ") (- j " + newoff + " " + n + "))))) :pattern ((select " + A + " j))))")
+		}
 		g.assert("(=> " + fits + " (forall ((j Int)) (! (=> (or (< j (+ (s_off " + s.S + ") " + n + ")) (>= j (+ (s_off " + s.S + ") " + n + " " + k + "))) (= (select " + A + " j) (select " + src + " j))) :pattern ((select " + A + " j)))))")
 	}
 	fr.env[x] = &Term{S: r, T: x.Type()}
